@@ -120,7 +120,7 @@ class C04(common.Prop):
     case_requires = ('From Coq Require Import String.\nFrom Coq Require Import List Ascii ZArith Bool.\n'
                      'From CGV Require Import Base.PyBase Base.PyVal Base.NxGraph Reader.Grammar Reader.ReaderCheck.')
     shard = 200
-    quick_cases = 1200
+    quick_cases = 2000
     thorough_cases = 24000
     extended_cases = 3000
     fail_text = {1: 'the graph returned differs from the graph the grammar denotes',
